@@ -238,6 +238,31 @@ def run(src, tier, seed):
             res.ok(r, '%s: every use of a representative is justified before the exit' % f['name'].replace('opensmt::', ''))
     if n_f == 0:
         raise AnalysisBroken('no array-solver function fills an explanation collection from representatives any more')
+    # ---- R6 the index terms a lemma talks about are the terms that occur in the stores, not their representatives
+    r = res.rule('lemma-indices-are-real-terms', 'what the array solver inserts into an IndicesCollection (the store indices whose disequality with the lemma\'s index becomes a literal of the lemma) '
+                 'is never an e-graph representative (getRoot(...) directly or through a local): a lemma over representatives is true only in the branch in which the classes were merged', floor=2)
+    n_ins = 0
+    for f in fx.F.values():
+        if not f.get('body') or not f['name'].startswith('opensmt::ArraySolver'):
+            continue
+        idx_params = {p_['n'] for p_ in f['params'] if 'IndicesCollection' in (p_.get('t') or '')}
+        idx_locals = {d['n'] for d in fwalk(f) if d.get('k') == 'decl' and 'IndicesCollection' in (d.get('t') or '') + (d.get('ct') or '')}
+        holders = idx_params | idx_locals
+        if not holders:
+            continue
+        rooted = {d['n'] for d in fwalk(f) if d.get('k') == 'decl' and d.get('init') is not None and any(is_call(x, 'getRoot') for x in __import__('facts').walk(d['init']))}
+        for n in fwalk(f):
+            if n.get('k') == 'call' and not n.get('as') and mname(n) in ('insert', 'emplace', 'push_back') and (path_of(n.get('recv')) or '').split('.')[0] in holders:
+                n_ins += 1
+                arg = n['a'][0] if n.get('a') else None
+                tainted = arg is not None and (any(is_call(x, 'getRoot') for x in __import__('facts').walk(arg)) or any(x.get('k') == 'ref' and x.get('n') in rooted for x in __import__('facts').walk(arg)))
+                if tainted:
+                    res.bad(r, 'lemma-index-is-representative:%s' % f['name'].split('::')[-1], fx.loc(f, n.get('ln')), '%s records an e-graph representative as a lemma index: the emitted clause speaks about '
+                            'root(k) instead of the index k that occurs in the store, and nothing in it says why the two are equal, so it is not valid in the theory of arrays' % f['name'])
+                else:
+                    res.ok(r, '%s: real index term' % fx.loc(f, n.get('ln')))
+    if n_ins == 0:
+        raise AnalysisBroken('no insertion into an IndicesCollection found in the array solver')
     seen = set()
     res.findings = [f_ for f_ in res.findings if not (f_.key in seen or seen.add(f_.key))]
     return res
